@@ -1,6 +1,7 @@
 """A catalogue of hand-written, standard-conforming workspaces in which every occurrence of the tested entities is
 annotated:  {name#ID}  marks an occurrence bound to entity ID,  {name#ID!}  its declaration,
-{name#ID~}  an occurrence whose go-to-definition is a recorded known finding (the remote name of `local => remote`).  Occurrences of other
+{name#ID~tag}  an occurrence whose go-to-definition is the recorded known finding <prop>:tag (a bare ~ = use-rename-remote-name, the
+remote name of `local => remote`).  Occurrences of other
 entities with the same spelling, and spellings inside comments and character literals, are deliberately left unmarked.
 Used by C05 (go-to-definition lands on the declaration) and C06 (references = exactly the marked occurrences,
 from every occurrence; also after an incremental single-line edit)."""
@@ -13,7 +14,7 @@ import tempfile
 
 from . import impl
 
-MARK = re.compile(r"\{(\w+)#(\w+)([!~]?)\}")
+MARK = re.compile(r"\{(\w+)#(\w+)(!|~[\w-]*)?\}")
 
 CATALOGUE = {
     "extends_chain": {
@@ -151,6 +152,168 @@ contains
 end module solver
 """,
     },
+    "private_access": {
+        "pa_inc.f90": """integer :: secret
+integer :: {shown#S2!}
+""",
+        "pa_m.f90": """module pa_m
+  implicit none
+  include 'pa_inc.f90'
+  private :: secret
+end module pa_m
+""",
+        "pa_base.f90": """module pa_base
+  implicit none
+  integer :: {bx#B1!}, by
+end module pa_base
+""",
+        "pa_r.f90": """module pa_r
+  use pa_base
+  implicit none
+  private :: by
+end module pa_r
+""",
+        "pa_i.f90": """module pa_i
+  implicit none
+  private
+  public :: api
+  interface
+    subroutine cb(x)
+      integer :: x
+    end subroutine cb
+  end interface
+contains
+  subroutine {api#I1!}()
+  end subroutine api
+end module pa_i
+""",
+        "pa_o.f90": """module pa_o
+  implicit none
+  integer :: {secret#O1!}
+  integer :: {by#O3!}
+contains
+  subroutine {cb#O2!}(y)
+    real :: y
+  end subroutine cb
+end module pa_o
+""",
+        "pa_main.f90": """program pa_main
+  use pa_m
+  use pa_i
+  use pa_r
+  use pa_o
+  implicit none
+  {secret#O1} = 1
+  {shown#S2} = 2
+  call {cb#O2}(1.0)
+  call {api#I1}()
+  {by#O3~private-use-associated} = 3
+  {bx#B1} = 4
+end program pa_main
+""",
+    },
+    "module_procedure_interface": {
+        "geo.f90": """module geo
+  implicit none
+  integer, parameter :: {wp#K1!} = kind(1.0d0)
+  type :: {point_t#T1!}
+    real({wp#K1}) :: {x#C1!}
+  end type
+  interface
+    module function norm1(p) result(r)
+      type({point_t#T1}), intent(in) :: p
+      real({wp#K1}) :: r
+    end function norm1
+  end interface
+end module geo
+""",
+        "geo_impl.f90": """submodule (geo) geo_impl
+contains
+  module function norm1(p) result(r)
+    type({point_t#T1}), intent(in) :: p
+    real({wp#K1}) :: r
+    r = abs(p%{x#C1})
+  end function norm1
+end submodule geo_impl
+""",
+    },
+    "include_names": {
+        "inc_body.f90": """integer, parameter :: {nmax#N1!} = 10
+real :: {tol#N2!}
+""",
+        "inc_host.f90": """module inc_host
+  implicit none
+  real :: {tol#M1!} = 1.0
+contains
+  subroutine inc_user()
+    include 'inc_body.f90'
+    real :: work({nmax#N1})
+    {tol#N2} = 0.5
+    work = {tol#N2}
+  end subroutine inc_user
+  subroutine other()
+    {tol#M1} = 2.0
+  end subroutine other
+end module inc_host
+""",
+    },
+    "literals_and_separators": {
+        "lits.f90": """program lits
+  implicit none
+  type :: cell_t
+    integer :: {cnt#C1!}
+  end type
+  type(cell_t) :: obj
+  character(len=10) :: s
+  integer :: {n#V1!}, x
+  integer :: {i#V2!}
+  integer :: a(5)
+  {n#V1} = 2
+  s = "abcdefghij"
+  print *, "it's" // s(1:{n#V1}) // "it's n"
+  x=1;obj%{cnt#C1}=2
+  obj%{cnt#C1} = obj%{cnt#C1} + {n#V1}
+  print *, 'n = ', {n#V1}, ' cnt!', obj%{cnt#C1}   ! n and cnt in a comment
+  a = [({i#V2}*{i#V2}, {i#V2}=1,5)]
+  print *, (a({i#V2}), {i#V2}=1,{n#V1})
+  forall ({i#V2} = 1:5) a({i#V2}) = {i#V2}
+  do concurrent ({i#V2} = 1:5)
+    a({i#V2}) = {n#V1}
+  end do
+end program lits
+""",
+    },
+    "keyword_argument": {
+        "kw.f90": """module kw
+  implicit none
+contains
+  subroutine foo({cnt#A1})
+    integer, intent(in) :: {cnt#A1!}
+    print *, {cnt#A1}
+  end subroutine foo
+  subroutine bar()
+    integer :: {cnt#V1!}
+    {cnt#V1} = 1
+    call foo({cnt#A1~argument-keyword}={cnt#V1})
+  end subroutine bar
+end module kw
+""",
+    },
+    "fixed_form": {
+        "ff.f": """      program ff
+      implicit none
+      integer {ierr#V1!}, {n#V2!}
+      {ierr#V1} = 0
+      {n#V2} = 1
+c     ierr and n in a comment line
+      {n#V2} = {n#V2} + {ierr#V1}   ! trailing n ierr
+      print *, 'Failed!', {ierr#V1}
+      print *, 'ierr!=', {ierr#V1}, {n#V2}
+      if ({ierr#V1} .ne. 0) {n#V2} =
+     &    {ierr#V1} + 2
+      end
+""",
+    },
 }
 
 
@@ -163,7 +326,8 @@ def parse_marked(files):
             res, pos = "", 0
             for m in MARK.finditer(line):
                 res += line[pos:m.start()]
-                occ.append((name, li, len(res), len(m.group(1)), m.group(2), m.group(3) == "!", m.group(3) == "~"))
+                g3 = m.group(3) or ""
+                occ.append((name, li, len(res), len(m.group(1)), m.group(2), g3 == "!", (g3[1:] or "use-rename-remote-name") if g3.startswith("~") else None))
                 res += m.group(1)
                 pos = m.end()
             res += line[pos:]
@@ -216,7 +380,7 @@ def _definitions_pass(ctx, c, name, sig_prefix, shift, note):
         ctx.count(("marked-def", name, f, li, col, note), True)
         want = (d[0], d[1] + shift.get(d[0], 0))
         if got != want:
-            ctx.report("%s:use-rename-remote-name" % sig_prefix if kf else "%s:catalogue-%s" % (sig_prefix, name),
+            ctx.report("%s:%s" % (sig_prefix, kf) if kf else "%s:catalogue-%s" % (sig_prefix, name),
                        "go-to-definition on '%s' (%s:%d:%d)%s lands on %s, it is declared at %s:%d" % (
                            c.plain[f].split("\n")[li][col:col + ln], f, li + shift.get(f, 0), col, note, got, want[0], want[1]),
                        {"kind": "counterexample", "input": {"files": c.plain, "at": [f, li, col], "history": note}, "implementation": got, "oracle": list(want)})
@@ -258,11 +422,15 @@ def refs_at(c, f, li, col):
 
 
 # cases whose entity is reachable under another spelling: the name-based scan cannot find those occurrences (known finding)
-ALIAS_CASES = {"rename_chain": "renamed-alias"}
+ALIAS_CASES = {"rename_chain": "renamed-alias", "keyword_argument": "argument-keyword"}
+# cases about accessibility and INCLUDE: definitions only (find-references over included declarations is not what they test)
+DEFINITIONS_ONLY = {"private_access", "include_names"}
 
 
 def check_references(ctx, sig_prefix="C06"):
     for name in CATALOGUE:
+        if name in DEFINITIONS_ONLY:
+            continue
         c = Case(name)
         tag = ALIAS_CASES.get(name, "catalogue-" + name)
         try:
